@@ -84,6 +84,8 @@ def global_prms_writers(ctx, rule='C11-R2'):
     fx = effects(ctx)
     writers = set()
     for q in fx.summ:
+        if is_helper(ctx.project, q):
+            continue        # a helper that rebinds / edits the dictionary is judged through the functions that call it
         for (key, deep), (e, via) in fx.mutations(q).items():
             if key == ('global', PRMS_GLOBAL):
                 writers.add(q)
